@@ -30,7 +30,7 @@ theorem varSet_fail_store (c : Cfg) (x : VarId) (v : Val) (s : St) (h : (varSet 
   · by_cases hf : c.fails x (s.cnt x) = true <;> simp_all
   · simp [hl] at h
 
-theorem refSet_fail_store (c : Cfg) (r : Ref) (v : Val) (s : St) (e : Cause)
+theorem refSet_fail_store (c : Cfg) (r : LV) (v : Val) (s : St) (e : Cause)
     (h : (refSet c r v s).out = some e) : (refSet c r v s).st.store = s.store := by
   cases r with
   | var x =>
@@ -38,9 +38,10 @@ theorem refSet_fail_store (c : Cfg) (r : Ref) (v : Val) (s : St) (e : Cause)
     cases hk : (varSet c x v s).ok
     · exact varSet_fail_store c x v s hk
     · simp [hk] at h
-  | elem x i =>
+  | elem x k ks =>
     simp only [refSet] at h ⊢
     split
+    · rfl
     · rfl
     · rename_i v' hv
       simp only [hv] at h
@@ -49,7 +50,7 @@ theorem refSet_fail_store (c : Cfg) (r : Ref) (v : Val) (s : St) (e : Cause)
       · simp [hk] at h
 
 /-- Every item an assignment collects is a restore/unset of some variable. -/
-theorem assignLoop_heads (c : Cfg) (collect : Bool) (pairs : List (Ref × Val)) :
+theorem assignLoop_heads (c : Cfg) (collect : Bool) (pairs : List (LV × Val)) :
     ∀ (s : St), ∀ it ∈ (assignLoop c collect pairs s : AR β).items, ∃ y, it.head = some y := by
   induction pairs with
   | nil => intro s it h; simp [assignLoop] at h
@@ -66,7 +67,7 @@ theorem assignLoop_heads (c : Cfg) (collect : Bool) (pairs : List (Ref × Val)) 
       · exact ih _ it h
 
 /-- A variable no collected item is about keeps its content through the assignment. -/
-theorem assignLoop_untouched (c : Cfg) (x : VarId) (pairs : List (Ref × Val)) :
+theorem assignLoop_untouched (c : Cfg) (x : VarId) (pairs : List (LV × Val)) :
     ∀ (s : St), (∀ it ∈ (assignLoop c true pairs s : AR β).items, it.head ≠ some x) →
       (assignLoop c true pairs s : AR β).st.store x = s.store x := by
   induction pairs with
@@ -90,7 +91,7 @@ theorem assignLoop_untouched (c : Cfg) (x : VarId) (pairs : List (Ref × Val)) :
 
 /-- The first item an assignment collects for x saved x's content from before
 the assignment. -/
-theorem assignLoop_first (c : Cfg) (x : VarId) (pairs : List (Ref × Val)) :
+theorem assignLoop_first (c : Cfg) (x : VarId) (pairs : List (LV × Val)) :
     ∀ (s : St) (it : Item β), firstFor x (assignLoop c true pairs s : AR β).items = some it →
       it = save s x := by
   induction pairs with
@@ -113,76 +114,87 @@ theorem assignLoop_first (c : Cfg) (x : VarId) (pairs : List (Ref × Val)) :
         rw [this]
         exact save_congr _ _ _ (refSet_other c r v s x (fun h => hx h.symm))
 
-theorem doAssign_eq (c : Cfg) (collect : Bool) (lvs : List LV) (vs : List Val) (s : St) :
-    (doAssign c collect lvs vs s : AR β) =
-      if (lvs.map (deref s)).length ≠ vs.length then ⟨s, [], [], some .arity⟩
-      else assignLoop c collect ((lvs.map (deref s)).zip vs) s := rfl
+theorem doAssign_eq (c : Cfg) (collect : Bool) (g : Group) (s : St) :
+    (doAssign c collect g s : AR β) =
+      match derefAll s g.lvs with
+      | some e => ⟨s, [], [], some e⟩
+      | none =>
+        match restValues g.lvs.length g.rest g.vs with
+        | none => ⟨s, [], [], some .arity⟩
+        | some vs => assignLoop c collect (g.lvs.zip vs) s := rfl
 
-theorem doAssign_first (c : Cfg) (x : VarId) (lvs : List LV) (vs : List Val) (s : St) (it : Item β)
-    (h : firstFor x (doAssign c true lvs vs s : AR β).items = some it) : it = save s x := by
-  rw [doAssign_eq] at h
-  split at h
-  · simp [firstFor] at h
-  · exact assignLoop_first c x _ s it h
-
-theorem doAssign_untouched (c : Cfg) (x : VarId) (lvs : List LV) (vs : List Val) (s : St)
-    (h : ∀ it ∈ (doAssign c true lvs vs s : AR β).items, it.head ≠ some x) :
-    (doAssign c true lvs vs s : AR β).st.store x = s.store x := by
-  rw [doAssign_eq] at h ⊢
-  split
-  · rfl
-  · rename_i hl
-    simp only [hl] at h
-    exact assignLoop_untouched c x _ s h
-
-theorem doAssign_heads (c : Cfg) (collect : Bool) (lvs : List LV) (vs : List Val) (s : St) :
-    ∀ it ∈ (doAssign c collect lvs vs s : AR β).items, ∃ y, it.head = some y := by
+/-- `doAssign` either stops before the first Set (bad index chain, arity) with
+nothing changed, logged or collected, or is the loop over lvalue/value pairs. -/
+theorem doAssign_cases (c : Cfg) (collect : Bool) (g : Group) (s : St) :
+    (∃ e, (doAssign c collect g s : AR β) = ⟨s, [], [], some e⟩) ∨
+    (∃ vs, restValues g.lvs.length g.rest g.vs = some vs ∧
+      (doAssign c collect g s : AR β) = assignLoop c collect (g.lvs.zip vs) s) := by
   rw [doAssign_eq]
-  split
-  · intro it h; simp at h
-  · exact assignLoop_heads c collect _ s
+  cases derefAll s g.lvs with
+  | some e => exact Or.inl ⟨e, rfl⟩
+  | none =>
+    cases hr : restValues g.lvs.length g.rest g.vs with
+    | none => exact Or.inl ⟨_, rfl⟩
+    | some vs => exact Or.inr ⟨vs, rfl, rfl⟩
 
-theorem assignGroups_heads (c : Cfg) (groups : List (List LV × List Val)) :
+theorem doAssign_first (c : Cfg) (x : VarId) (g : Group) (s : St) (it : Item β)
+    (h : firstFor x (doAssign c true g s : AR β).items = some it) : it = save s x := by
+  rcases doAssign_cases (β := β) c true g s with ⟨e, he⟩ | ⟨vs, _, he⟩
+  · rw [he] at h; simp [firstFor] at h
+  · rw [he] at h; exact assignLoop_first c x _ s it h
+
+theorem doAssign_untouched (c : Cfg) (x : VarId) (g : Group) (s : St)
+    (h : ∀ it ∈ (doAssign c true g s : AR β).items, it.head ≠ some x) :
+    (doAssign c true g s : AR β).st.store x = s.store x := by
+  rcases doAssign_cases (β := β) c true g s with ⟨e, he⟩ | ⟨vs, _, he⟩
+  · rw [he]
+  · rw [he] at h ⊢; exact assignLoop_untouched c x _ s h
+
+theorem doAssign_heads (c : Cfg) (collect : Bool) (g : Group) (s : St) :
+    ∀ it ∈ (doAssign c collect g s : AR β).items, ∃ y, it.head = some y := by
+  rcases doAssign_cases (β := β) c collect g s with ⟨e, he⟩ | ⟨vs, _, he⟩
+  · rw [he]; intro it h; simp at h
+  · rw [he]; exact assignLoop_heads c collect _ s
+
+theorem assignGroups_heads (c : Cfg) (groups : List Group) :
     ∀ (s : St), ∀ it ∈ (assignGroups c groups s : AR β).items, ∃ y, it.head = some y := by
   induction groups with
   | nil => intro s it h; simp [assignGroups] at h
   | cons g rest ih =>
     intro s it h
-    obtain ⟨lvs, vs⟩ := g
     simp only [assignGroups] at h
     split at h
-    · exact doAssign_heads c true lvs vs s it h
+    · exact doAssign_heads c true g s it h
     · simp only [List.mem_append] at h
       rcases h with h | h
-      · exact doAssign_heads c true lvs vs s it h
+      · exact doAssign_heads c true g s it h
       · exact ih _ it h
 
 theorem find?_append_none {α : Type} (p : α → Bool) (a b : List α) (h : a.find? p = none) :
     (a ++ b).find? p = b.find? p := by
   simp [List.find?_append, h]
 
-theorem assignGroups_first (c : Cfg) (x : VarId) (groups : List (List LV × List Val)) :
+theorem assignGroups_first (c : Cfg) (x : VarId) (groups : List Group) :
     ∀ (s : St) (it : Item β), firstFor x (assignGroups c groups s : AR β).items = some it →
       it = save s x := by
   induction groups with
   | nil => intro s it h; simp [assignGroups, firstFor] at h
   | cons g rest ih =>
     intro s it h
-    obtain ⟨lvs, vs⟩ := g
     simp only [assignGroups] at h
     split at h
-    · exact doAssign_first c x lvs vs s it h
-    · cases hf : firstFor x (doAssign c true lvs vs s : AR β).items with
+    · exact doAssign_first c x g s it h
+    · cases hf : firstFor x (doAssign c true g s : AR β).items with
       | some it' =>
-        have : firstFor x ((doAssign c true lvs vs s : AR β).items ++
-            (assignGroups c rest (doAssign c true lvs vs s : AR β).st : AR β).items) = some it' := by
+        have : firstFor x ((doAssign c true g s : AR β).items ++
+            (assignGroups c rest (doAssign c true g s : AR β).st : AR β).items) = some it' := by
           unfold firstFor at hf ⊢
           simp [List.find?_append, hf]
         simp only [] at h
         rw [this] at h
         injection h with h
         rw [← h]
-        exact doAssign_first c x lvs vs s it' hf
+        exact doAssign_first c x g s it' hf
       | none =>
         unfold firstFor at hf h
         simp only [] at h
@@ -200,13 +212,13 @@ theorem assignGroups_first (c : Cfg) (x : VarId) (groups : List (List LV × List
 def noCb : Empty → St → R := fun b _ => b.elim
 
 /-- After the assignments and — if they all succeeded — the body. -/
-def withMid (c : Cfg) (groups : List (List LV × List Val)) (body : St → R) (s : St) : R :=
+def withMid (c : Cfg) (groups : List Group) (body : St → R) (s : St) : R :=
   let a : AR Empty := assignGroups c groups s
   match a.out with
   | some e => ⟨a.st, [], some e⟩
   | none => body a.st
 
-theorem withExec_eq (c : Cfg) (groups : List (List LV × List Val)) (body : St → R) (s : St) :
+theorem withExec_eq (c : Cfg) (groups : List Group) (body : St → R) (s : St) :
     withExec c groups body s =
       (let a : AR Empty := assignGroups c groups s
        let b := withMid c groups body s
@@ -290,35 +302,42 @@ theorem varSet_ev_heads (c : Cfg) (x : VarId) (v : Val) (s : St) :
   by_cases hk : (varSet c x v s).ok = true <;> by_cases hl : (c.kind x).isLogged = true <;>
     simp only [hl, hk, if_true, if_false, Bool.false_eq_true] <;> first | rfl | simp [Event.isOkSet]
 
-theorem refSet_elem_none (c : Cfg) (x : VarId) (i : Nat) (v : Val) (s : St)
-    (h : assoc (s.store x) i v = none) : refSet c (.elem x i) v s = ⟨s, [], some .elemErr⟩ := by
+theorem refSet_elem_exc (c : Cfg) (x : VarId) (k : Key) (ks : List Key) (v : Val) (s : St) (m : String)
+    (h : C14.setElem (curVal (s.store x)) (k :: ks) v = .exc m) :
+    refSet c (.elem x k ks) v s = ⟨s, [], some .elemErr⟩ := by
   simp [refSet, h]
 
-theorem refSet_elem_some (c : Cfg) (x : VarId) (i : Nat) (v v' : Val) (s : St)
-    (h : assoc (s.store x) i v = some v') :
-    refSet c (.elem x i) v s =
+theorem refSet_elem_panic (c : Cfg) (x : VarId) (k : Key) (ks : List Key) (v : Val) (s : St) (m : String)
+    (h : C14.setElem (curVal (s.store x)) (k :: ks) v = .panic m) :
+    refSet c (.elem x k ks) v s = ⟨s, [], some .panic⟩ := by
+  simp [refSet, h]
+
+theorem refSet_elem_ok (c : Cfg) (x : VarId) (k : Key) (ks : List Key) (v v' : Val) (s : St)
+    (h : C14.setElem (curVal (s.store x)) (k :: ks) v = .ok v') :
+    refSet c (.elem x k ks) v s =
       ⟨(varSet c x v' s).st, (varSet c x v' s).ev,
         if (varSet c x v' s).ok then none else some (.setFail x)⟩ := by
   simp [refSet, h]
 
-theorem refSet_ev_heads (c : Cfg) (r : Ref) (v : Val) (s : St) :
+theorem refSet_ev_heads (c : Cfg) (r : LV) (v : Val) (s : St) :
     ((refSet c r v s).ev.filter Event.isOkSet).filterMap Event.varOf =
       if (refSet c r v s).out = none then (if (c.kind r.head).isLogged then [r.head] else []) else [] := by
   cases r with
   | var x =>
-    simp only [refSet, varSet_ev_heads, Ref.head]
+    simp only [refSet, varSet_ev_heads, LV.head]
     by_cases hk : (varSet c x v s).ok = true <;>
       by_cases hl : (c.kind x).isLogged = true <;> simp [hk, hl]
-  | elem x i =>
-    cases ha : assoc (s.store x) i v with
-    | none => rw [refSet_elem_none c x i v s ha]; simp
-    | some v' =>
-      rw [refSet_elem_some c x i v v' s ha]
-      simp only [varSet_ev_heads, Ref.head]
+  | elem x k ks =>
+    cases ha : C14.setElem (curVal (s.store x)) (k :: ks) v with
+    | exc m => rw [refSet_elem_exc c x k ks v s m ha]; simp
+    | panic m => rw [refSet_elem_panic c x k ks v s m ha]; simp
+    | ok v' =>
+      rw [refSet_elem_ok c x k ks v v' s ha]
+      simp only [varSet_ev_heads, LV.head]
       by_cases hk : (varSet c x v' s).ok = true <;>
         by_cases hl : (c.kind x).isLogged = true <;> simp [hk, hl]
 
-theorem assignLoop_ev_heads (c : Cfg) (pairs : List (Ref × Val)) :
+theorem assignLoop_ev_heads (c : Cfg) (pairs : List (LV × Val)) :
     ∀ (s : St),
       ((assignLoop c true pairs s : AR β).ev.filter Event.isOkSet).filterMap Event.varOf =
         (assignLoop c true pairs s : AR β).items.filterMap (loggedHead c) := by
@@ -336,15 +355,14 @@ theorem assignLoop_ev_heads (c : Cfg) (pairs : List (Ref × Val)) :
         List.singleton_append, List.filterMap_cons, loggedHead, save_head]
       split <;> simp
 
-theorem doAssign_ev_heads (c : Cfg) (lvs : List LV) (vs : List Val) (s : St) :
-    ((doAssign c true lvs vs s : AR β).ev.filter Event.isOkSet).filterMap Event.varOf =
-      (doAssign c true lvs vs s : AR β).items.filterMap (loggedHead c) := by
-  rw [doAssign_eq]
-  split
-  · simp
-  · exact assignLoop_ev_heads c _ s
+theorem doAssign_ev_heads (c : Cfg) (g : Group) (s : St) :
+    ((doAssign c true g s : AR β).ev.filter Event.isOkSet).filterMap Event.varOf =
+      (doAssign c true g s : AR β).items.filterMap (loggedHead c) := by
+  rcases doAssign_cases (β := β) c true g s with ⟨e, he⟩ | ⟨vs, _, he⟩
+  · rw [he]; simp
+  · rw [he]; exact assignLoop_ev_heads c _ s
 
-theorem assignGroups_ev_heads (c : Cfg) (groups : List (List LV × List Val)) :
+theorem assignGroups_ev_heads (c : Cfg) (groups : List Group) :
     ∀ (s : St),
       ((assignGroups c groups s : AR β).ev.filter Event.isOkSet).filterMap Event.varOf =
         (assignGroups c groups s : AR β).items.filterMap (loggedHead c) := by
@@ -352,10 +370,9 @@ theorem assignGroups_ev_heads (c : Cfg) (groups : List (List LV × List Val)) :
   | nil => intro s; simp [assignGroups]
   | cons g rest ih =>
     intro s
-    obtain ⟨lvs, vs⟩ := g
     simp only [assignGroups]
     split
-    · exact doAssign_ev_heads c lvs vs s
+    · exact doAssign_ev_heads c g s
     · simp only [List.filter_append, List.filterMap_append, ih, doAssign_ev_heads]
 
 end C21
